@@ -312,7 +312,9 @@ pub fn run_val(line: &str) -> String {
 //                WD a s b amt | RP a s b amt | BR a s b amt | DP a s b amt | IR a | LQ l s v | HB a s |
 //                TR old s | PX prog <one of the above>      (PX = invoked by CPI from program `prog`)
 // out:   OK | ERR idx code ; then per account code 1,2,3,4,9:
-//        a<code>:<flags>:<receiver code>:<record 0/1>:<am>,<lm>,<ae>,<le>:<bank>=<asset units>/<liab units>,...
+//        a<code>:<flags>:<receiver code>:<record 0/1>:<am>,<lm>,<ae>,<le>:<bank>=<asset units>/<liab units>,...:<ref>
+//        ref = init assets,liabs, maint assets,liabs, equity assets,liabs computed by the REAL risk engine
+//        (pulse_health on a scratch copy of the final state); `-` while IN_FLASHLOAN
 //        (`-` for an account that does not exist)
 
 const U: u64 = 1_000_000;
@@ -626,7 +628,30 @@ fn dump_account(fx: &Fix, w: &World, code: u64) -> String {
             bals.push(format!("{}={}/{}", bc, f(au), f(lu)));
         }
     }
-    format!("a{}:{}:{}:{}:{}:{}", code, a.account_flags, recv, has, cache, bals.join(","))
+    // reference health: the real risk engine (lending_account_pulse_health) on a scratch copy
+    let refh = if a.account_flags & ACCOUNT_IN_FLASHLOAN != 0 {
+        "-".to_string()
+    } else {
+        let mut scratch = World::new();
+        scratch.accounts = w.accounts.clone();
+        let ix = ixs::lending_account_pulse_health(key, rem_for(w, &key, &[]));
+        match scratch.exec_tx(&[ix], &[fx.wallet(20)]) {
+            Ok(()) => {
+                let h = scratch.get::<MarginfiAccount>(&key).unwrap().health_cache;
+                format!(
+                    "{},{},{},{},{},{}",
+                    I80F48::from(h.asset_value).to_bits(),
+                    I80F48::from(h.liability_value).to_bits(),
+                    I80F48::from(h.asset_value_maint).to_bits(),
+                    I80F48::from(h.liability_value_maint).to_bits(),
+                    I80F48::from(h.asset_value_equity).to_bits(),
+                    I80F48::from(h.liability_value_equity).to_bits()
+                )
+            }
+            Err(_) => "x,x,x,x,x,x".to_string(),
+        }
+    };
+    format!("a{}:{}:{}:{}:{}:{}:{}", code, a.account_flags, recv, has, cache, bals.join(","), refh)
 }
 
 pub fn run_sim(line: &str) -> String {
